@@ -65,3 +65,17 @@ fn c08_num_bits_sufficient() {
     assert!(nb <= 56 || nb == 64);
     kani::cover!(nb == 64);
 }
+
+/// C03 (summary used by M03-1): the column-side order-preserving maps are the ones modelled:
+/// i64 -> common::i64_to_u64 (= (x as u64) ^ 2^63), u64 -> identity
+#[kani::proof]
+fn c03_monotonic_map_definitions() {
+    use crate::MonotonicallyMappableToU64;
+    let x: i64 = kani::any();
+    assert_eq!(MonotonicallyMappableToU64::to_u64(x), (x as u64) ^ (1u64 << 63));
+    assert_eq!(<i64 as MonotonicallyMappableToU64>::from_u64(MonotonicallyMappableToU64::to_u64(x)), x);
+    let y: u64 = kani::any();
+    assert_eq!(MonotonicallyMappableToU64::to_u64(y), y);
+    assert_eq!(<u64 as MonotonicallyMappableToU64>::from_u64(y), y);
+    kani::cover!(x < 0);
+}
